@@ -196,7 +196,41 @@ func genC20Stream(r *core.Rand, g *gen.StmtGen, long bool) c20Stream {
 		}
 	}
 	st.typed = typed.String()
-	if !long && !breakLits && !bracketed && r.Chance(1, 8) {
+	if !long && !breakLits && !bracketed && r.Chance(1, 7) {
+		// a typing error put right: the first line is typed with one character
+		// left out, the cursor goes back with the left-arrow key, the character
+		// is typed where it belongs, End, and the typing goes on. (The line has
+		// 6, 14, 30, 62 or 126 characters at that moment in three cases of
+		// four: sizes at which a buffer that doubles has just filled up.)
+		s0 := st.typed
+		end := strings.IndexByte(s0, '\r')
+		if end < 0 {
+			end = len(s0)
+		}
+		line := s0[:end]
+		ascii := true
+		for i := 0; i < len(line); i++ {
+			if line[i] < 0x20 || line[i] > 0x7e {
+				ascii = false
+			}
+		}
+		if ascii && len(line) >= 8 {
+			var fits []int
+			for _, cc := range []int{6, 14, 30, 62, 126} {
+				if cc+1 <= len(line) {
+					fits = append(fits, cc)
+				}
+			}
+			cc := r.Range(3, len(line)-1)
+			if len(fits) > 0 && r.Chance(3, 4) {
+				cc = fits[r.Intn(len(fits))]
+			}
+			pp := r.Intn(cc)
+			fixed := line[:pp] + line[pp+1:cc+1] + strings.Repeat("\x1b[D", cc-pp) + string(line[pp]) + "\x05" + line[cc+1:]
+			st.typed = fixed + s0[end:]
+			hz["typing_error_put_right_in_mid_line"] = true
+		}
+	} else if !long && !breakLits && !bracketed && r.Chance(1, 8) {
 		// a false start, given up: some text (with a semicolon in the middle,
 		// an open quote, a line break that does not submit), then Ctrl-A and
 		// Ctrl-K - the line is empty again - and the statements are typed
@@ -236,7 +270,7 @@ func genC20Stream(r *core.Rand, g *gen.StmtGen, long bool) c20Stream {
 }
 
 func checkC20(c *core.Ctx) []core.Floor {
-	c.Rule = "lists of 1-8 statements (from the C10 grammar plus literals and quoted identifiers containing semicolons, the other quote kind, spaces, keywords, non-ASCII text incl. zero-width joiners / non-joiners, soft hyphens and a byte order mark), each terminated by a semicolon, entered with line breaks (Enter = CR, as in raw mode; now and then two in a row: an empty line inside the statement) at random token boundaries - and, in one stream in eight, inside literals in the place of their blanks (also right after a semicolon of the literal); for those streams white space inside tokens is not compared, everything else is - several statements per line or one statement over many lines, now and then the same statement twice in a row, now and then an empty statement (a semicolon of its own, whose fate is not judged) in front of a statement; delivered byte by byte, in random small chunks that split UTF-8 sequences, or as full 256-byte reads (a paste is a fast byte stream: the console never enables bracketed paste); one stream in six is wrapped in paste brackets all the same (ESC [200~ ... ESC [201~: what a terminal sends once an application has asked for bracketed paste), with several lines and statements inside one paste and tabs inside its literals - there ReadLine's paste indicator is taken as what its documentation says, an addition to valid data; one stream in eight begins with a false start (text with a semicolon in the middle, an open quote, a line break that does not submit) that is given up with Ctrl-A Ctrl-K before the statements are typed. The real Terminal.ReadLine (driven in-package through a go test -overlay driver) is called until EOF; the submitted statements, tokenised with the real SQL tokenizer, must equal the typed statements one to one and in order. In addition 64 (quick) / 1600 (thorough) whole console sessions run end to end: the console's own runTerminal loop on a pseudo-terminal with a real engine.Session behind it, the keystrokes written to the pty master; the statements are INSERTs of (sequence number, literal) into one table, mixed with statements the engine rejects (unknown table, syntax error, type error) on the same and on other lines; afterwards the table must hold exactly the valid INSERTs' rows, once each and in order, literals intact. Distinct = keystroke stream + chunking; non-trivial = a literal contains a semicolon, or a line carries several statements, or a statement spans several lines."
+	c.Rule = "lists of 1-8 statements (from the C10 grammar plus literals and quoted identifiers containing semicolons, the other quote kind, spaces, keywords, non-ASCII text incl. zero-width joiners / non-joiners, soft hyphens and a byte order mark), each terminated by a semicolon, entered with line breaks (Enter = CR, as in raw mode; now and then two in a row: an empty line inside the statement) at random token boundaries - and, in one stream in eight, inside literals in the place of their blanks (also right after a semicolon of the literal); for those streams white space inside tokens is not compared, everything else is - several statements per line or one statement over many lines, now and then the same statement twice in a row, now and then an empty statement (a semicolon of its own, whose fate is not judged) in front of a statement; delivered byte by byte, in random small chunks that split UTF-8 sequences, or as full 256-byte reads (a paste is a fast byte stream: the console never enables bracketed paste); one stream in six is wrapped in paste brackets all the same (ESC [200~ ... ESC [201~: what a terminal sends once an application has asked for bracketed paste), with several lines and statements inside one paste and tabs inside its literals - there ReadLine's paste indicator is taken as what its documentation says, an addition to valid data; one stream in eight begins with a false start (text with a semicolon in the middle, an open quote, a line break that does not submit) that is given up with Ctrl-A Ctrl-K before the statements are typed; one in seven has a typing error in its first line put right (a character left out, the cursor moved back with the arrow key, the character typed in mid-line, End). The real Terminal.ReadLine (driven in-package through a go test -overlay driver) is called until EOF; the submitted statements, tokenised with the real SQL tokenizer, must equal the typed statements one to one and in order. In addition 64 (quick) / 1600 (thorough) whole console sessions run end to end: the console's own runTerminal loop on a pseudo-terminal with a real engine.Session behind it, the keystrokes written to the pty master; the statements are INSERTs of (sequence number, literal) into one table, mixed with statements the engine rejects (unknown table, syntax error, type error) on the same and on other lines; afterwards the table must hold exactly the valid INSERTs' rows, once each and in order, literals intact. Distinct = keystroke stream + chunking; non-trivial = a literal contains a semicolon, or a line carries several statements, or a statement spans several lines."
 	c.Assume = []string{"what a line break inside a literal should become (blank, line break, nothing) is not stated by the property: streams with such breaks are compared modulo white space inside tokens", "one stream in fifty carries a statement of 4-40 KB"}
 	bin, err := buildOverlayTest(c, "cmd/console", "console_driver_test.go", "zz_verif_driver_test.go")
 	if err != nil {
